@@ -483,7 +483,8 @@ fn exec_sendbuf(plan: &Value, ctx: &mut Ctx) {
         let mut guard = 0u64;
         loop {
             guard += 1;
-            if guard > 10_000_000 {
+            // generous bound: every byte could need its own write plus a Pending and a cancellation
+            if guard > 8 * (expected.len() as u64 + 1000) {
                 outcome = "stuck";
                 break 'outer;
             }
